@@ -1119,6 +1119,12 @@ pub mod verif {
 
     pub use crate::blend::verif as blend_fns;
 
+    /// Generic (non-SIMD) 2-D DCT entry point of `vardct::generic::dct` for the harness crate:
+    /// forward (`true`) or inverse transform of the whole subgrid in place.
+    pub fn generic_dct_2d(io: &mut jxl_grid::MutableSubgrid<'_, f32>, forward: bool) {
+        crate::vardct::generic_dct_2d_dir(io, forward)
+    }
+
     /// Region padding arithmetic of `util` (crate-private) for the harness crate.
     pub mod region_fns {
         use crate::Region;
